@@ -413,20 +413,40 @@ example : let t := (runS {} [.base (.newGroup none), .base (.newGroup (some 0)),
     rootOf t.length t 1 = 0 ∧ rootOf t.length t 3 = 3 ∧ waitParentsReturns t 1 = true ∧ poolsBelow t 0 = 1 ∧
       below 4 t 0 2 = true := by decide
 
-/-- `Group.isShutdown` and "stopped" are never reset, whatever happens afterwards; a stopped pool rejects every
-`Submit` (its counter is not moved by `inc`), so from then on it only drains. -/
-theorem C16_group_flags_monotone (s : GS) (ops : List SOp) (j : Nat) (h : isShut s j = true) :
+/-- `Group.isShutdown` and "stopped" are never reset, whatever happens afterwards — short of an explicit `Start()` of that
+very pool by the user (`restart j`; for a group `j` the hypothesis is vacuous: there is no such operation) —; a stopped
+pool rejects every `Submit` (its counter is not moved by `inc`), so from then on it only drains. -/
+theorem C16_group_flags_monotone (s : GS) (ops : List SOp) (j : Nat) (h : isShut s j = true)
+    (hnr : ∀ op ∈ ops, op.restarts j = false) :
     isShut (runS s ops) j = true ∧ stepS (runS s ops) (.base (.inc j)) = runS s ops :=
-  ⟨isShut_runS s ops j h, stepS_inc_stopped _ j (isShut_runS s ops j h)⟩
+  ⟨isShut_runS s ops j h hnr, stepS_inc_stopped _ j (isShut_runS s ops j h hnr)⟩
+
+/-- `restart` is enabled on stopped pools only — never on a group: a group's flag is reset by nothing. -/
+theorem C16_group_restart_only_pools (s : GS) (q : Nat) (h : (SOp.restart q).ok s = true) :
+    isPoolAt s.tree q = true ∧ isGroup s.tree q = false ∧ isShut s q = true := by
+  have h' : isPoolAt s.tree q = true ∧ isShut s q = true := by simpa [SOp.ok] using h
+  exact ⟨h'.1, pool_not_group h'.1, h'.2⟩
 
 /-- **A stopped pool only drains.**  From any state reached by the group operations (`runS {} pre`), once `Group.shutdown`
 has called `Shutdown()` on pool `q`, no later operation — in any interleaving with tasks accepted and finished
 elsewhere in the tree, pools and groups created, other shutdowns — increases `q`'s pending counter: with the pool-level
 theorems (every accepted task finishes) the pool runs dry, and by `C16_group_shutdown_wait` the groups above it follow. -/
 theorem C16_group_stopped_pool_drains (pre ops : List SOp) (q : Nat)
-    (hq : isPoolAt (runS {} pre).tree q = true) (hs : isShut (runS {} pre) q = true) :
+    (hq : isPoolAt (runS {} pre).tree q = true) (hs : isShut (runS {} pre) q = true)
+    (hnr : ∀ op ∈ ops, op.restarts q = false) :
     val (runS (runS {} pre) ops).tree q ≤ val (runS {} pre).tree q :=
-  val_runS_stopped _ ops q (inv_runS {} pre inv_nil) hq hs
+  val_runS_stopped _ ops q (inv_runS {} pre inv_nil) hq hs hnr
+
+/-- **Restart of a pool that its group has stopped** (`pool.Start()` by the user; the statement's "restart" at the group
+level): the pool accepts tasks again and they count all the way up — the counter tree stays exact
+(`C16_group_shutdown_wait` quantifies over scripts with `restart`) —; the group's flag stays set, so a second
+`Group.Shutdown` is a no-op and does not stop the pool again (what the code does; the harness stops such pools itself). -/
+theorem C16_group_restart_example :
+    let s := runS {} [.base (.newGroup none), .base (.newPool 0), .shutdown 0, .base (.inc 1), .restart 1, .base (.inc 1)]
+    s.shut = [true, false] ∧ s.tree.map (·.value) = [1, 1] ∧ waitChildrenReturns s.tree 0 = false ∧
+      (let s' := runS s [.base (.dec 1), .shutdown 0, .base (.inc 1)]
+       s'.shut = [true, false] ∧ s'.tree.map (·.value) = [1, 1]) := by
+  decide
 
 example : let pre : List SOp := [.base (.newGroup none), .base (.newPool 0), .base (.inc 1), .flag 0, .stop 1]
     isPoolAt (runS {} pre).tree 1 = true ∧ isShut (runS {} pre) 1 = true ∧ val (runS {} pre).tree 1 = 1 := by decide
